@@ -3,7 +3,7 @@ Channel `hash` (C14): a whole history on one hash per line.
 
   hash <ev|pk> S=<sym>:<num>,… U=<rkey>,… <op> <op> …
     rkey : y.<name> | s.<letters> | i.<int> | c.<codepoint> | a.<one of these>   ([k])
-    op   : set/<rkey>/<int> del/<rkey> get/<rkey> getd/<rkey> keys len hpair/<n> range str json
+    op   : set/<rkey>/<int> del/<rkey> get/<rkey> getd/<rkey> keys len hpair/<n> range ranged str json
            obs   (= every observer: get+getd of each U key, keys, len, hpair 0..|U|, range, str, json)
   answer : per op the observation(s) (`|` between the members of `obs`), `;` between ops; on
            route `pk` each op is followed by `@N<NumKeys>,K[<KeyOrder>],B[<code>:<bucket size>,…]`.
@@ -13,6 +13,7 @@ per code that occurs, as large as the number of entries with that code).
 -/
 import ZygoVerif.Model.Hash
 import ZygoVerif.Model.HashKey
+import ZygoVerif.Model.RangeBind
 import ZygoVerif.Spec.OrderedMap
 import ZygoVerif.Driver.Proto
 namespace ZygoVerif.Driver.Hash
@@ -65,7 +66,7 @@ def parseOp (syms : List (String × Int)) (u : List (RKey Key)) (t : String) : O
   | ["len"] => some [.len]
   | ["hpair", n] => n.toNat?.map (fun n => [.hpair n])
   | ["range"] => some [.range]
-  | ["ranged"] => some [.range]     -- `k, v := range h`: the same iteration, defining form
+  | ["ranged"] => some [.range]     -- `k, v := range h`: the same iteration, defining form (`definingObs` below)
   | ["str"] => some [.str]
   | ["json"] => some [.json]
   | ["obs"] => some (obsSuite u)
@@ -100,13 +101,15 @@ def histogram (codes : List Int) : List (Int × Nat) :=
 def dumpSpec (m : Spec.OMap Key Int) : String :=
   showDump m.length (m.map (·.1)) (histogram (m.map (fun e => e.1.code)))
 
-def runModel (pk : Bool) (groups : List (List O)) : String :=
-  let rec go (h : H) : List (List O) → List String
+/-- model column. `defining` marks the groups that stand for `ranged`: the pairs `range` reads
+from the hash, bound by the defining loop (Model/RangeBind: one `mdef` per iteration). -/
+def runModel (pk : Bool) (groups : List (List O × Bool)) : String :=
+  let rec go (h : H) : List (List O × Bool) → List String
     | [] => []
-    | g :: rest =>
+    | (g, defining) :: rest =>
       let (h', obs) := g.foldl (fun (acc : H × List String) op =>
         let (h1, ob) := step keyOps keyShow acc.1 op
-        (h1, acc.2 ++ [showObs ob])) (h, [])
+        (h1, acc.2 ++ [showObs (if defining then definingObs ob else ob)])) (h, [])
       ("|".intercalate obs ++ (if pk then dumpModel h' else "")) :: go h' rest
   ";".intercalate (go Hash.empty groups)
 
@@ -126,12 +129,12 @@ def handle (toks : List String) : String :=
     match (do
       let syms ← parseSyms s
       let univ ← parseUniverse syms u
-      let groups ← ops.mapM (parseOp syms univ)
+      let groups ← ops.mapM (fun t => (parseOp syms univ t).map (fun g => (g, t == "ranged" && route == "ev")))
       some groups) with
     | some groups =>
       if route == "ev" ∨ route == "pk" then
         let pk := route == "pk"
-        runModel pk groups ++ "\t" ++ runSpec pk groups
+        runModel pk groups ++ "\t" ++ runSpec pk (groups.map (·.1))
       else "bad-op\t-"
     | none => "bad-op\t-"
   | _ => "bad-op\t-"
